@@ -1,7 +1,7 @@
 (* Extraction of the executable models to OCaml (ExtrOcamlBasic only: bool, option, unit,
    list, prod, sumbool, sumor are mapped to OCaml's; N / positive / comparison stay Coq
    data types; no Extract Constant). *)
-From SV Require Import Origin Iter Eval Peg.
+From SV Require Import Origin Iter Eval Peg SkipCheck.
 Require Extraction.
 Require Import ExtrOcamlBasic.
 Extraction Language OCaml.
@@ -10,5 +10,6 @@ Separate Extraction Iter.iter_run Iter.ev_run Iter.iter_event Iter.iter_new Iter
   Iter.unwrap_node Iter.get_str_range Iter.get_str_trim_range Tree.size Tree.preorder Tree.events
   Origin.run_ops Origin.pt_origin Origin.pt_push Origin.pt_merge Origin.pt_new
   Peg.memo_insert Peg.map_get Peg.mkPst
+  SkipCheck.skip_hyp_file
   Eval.preprocess Eval.pp_str Eval.split_text Eval.seed_defines Eval.mkCfg
   BinNat.N.of_nat BinNat.N.to_nat BinNat.N.add BinNat.N.mul BinNat.N.eqb BinNat.N.ltb BinNat.N.succ.
